@@ -308,10 +308,7 @@ func c04(e *Env) {
 func (e *Env) termV2BaseTemporal(k *scoreKit, report bool) {
 	{
 		B, T := k.level("Base"), k.level("Temporal")
-		helper := "round2"
-		if r := k.round["round2"]; r != nil {
-			helper = r.Name()
-		}
+		helper := "round-to-2-decimals" // identified by shape (math.Round(x*100)/100), not by name
 		// Base
 		valid := k.valid(B, B)
 		one := fl(1)
@@ -366,10 +363,7 @@ func c05(e *Env) {
 func (e *Env) termV2Env(k *scoreKit, report bool) {
 	{
 		B, T, E := k.level("Base"), k.level("Temporal"), k.level("Environmental")
-		helper := "round2"
-		if r := k.round["round2"]; r != nil {
-			helper = r.Name()
-		}
+		helper := "round-to-2-decimals" // identified by shape (math.Round(x*100)/100), not by name
 		valid := k.valid(E, E)
 		one := fl(1)
 		w := func(n string) *ir.Term { return k.w(E, n) }
